@@ -25,7 +25,7 @@ EXPLANATION = ("(a) kernelsmt: the face-index arithmetic of unit_grid, torus, sp
 BOUNDS = {
     "quick": "E2: all integer resolutions >= the documented minimum (unbounded). E1: unit_grid/unit_triangle resolutions in [2,4]^2, "
              "torus in [3,4]^2, sphere_uv in [3,4]^2, cylinder N in [3,5], rings N in [3,5] x n_cover in [1,2], fixed polyhedra; "
-             "symbolic centre/radius for sphere_uv, torus radii, icosahedron, icosphere(0)",
+             "symbolic centre/radius for sphere_uv, torus radii, icosahedron, icosphere(0); ring apex defect measured for requested defects {0, 0.5, 2, 5.9, 7}; every generator called twice with the first result edited in between",
     "thorough": "E1 resolutions up to 6, icosphere(1) on the sphere (depth), cylinder vertices at the radius from the axis (depth)",
 }
 OUTSIDE = ("sphere_fibonacci surface (qhull), icosphere beyond one refinement, apex placement of ring() (float bisection on atan2); "
